@@ -85,14 +85,9 @@ func (q *query) constructLookupResult() *lookupWithFollowupResult
 # contexts ends: publishing never drops an event because the subscriber lags.
 func (e *lookupEventChannel) send(ctx context.Context, ev *LookupEvent)
   props C01
-  modifies *
+  modifies nothing
   ensures [delivered-or-cancelled] imp(e.ch != nil, tagged("sent:e.ch") || tagged("recv:e.ctx.Done()") || tagged("recv:ctx.Done()"))
   ghost at send(e.ch): assert($msg == ev)
-
-func PublishLookupEvent(ctx context.Context, ev *LookupEvent)
-  props C01
-  modifies *
-  ghost at before call(send): assert($arg1 == ev)
 
 # ---- the lookup event loop (C03, C01, C02) ------------------------------------
 # $out: the peers with a spawned worker whose update has not been consumed yet
